@@ -20,6 +20,7 @@ RULE = ('scoping scenarios: programs of 2-9 statements over a small pool of name
         'bodies that assign (plain and compound) to parameter, local, host and builtin names. Non-trivial = at least one lambda call happened and all monitors ran; '
         'distinct = distinct (program text, ast_names body).')
 RULE += ' Host callback reenter(k) evaluates another program on the same parser with its own names while the call is in flight (reference side: R2).'
+RULE += ' Host values include a wildcard object equal to everything and one equal to nothing (falsy), also bound over the builtin max and passed as lambda arguments.'
 ASSUMPTIONS = ['R2 (lib/refeval.py) defines the expected result and host names: innermost-first resolution, top-level assignments written to the host mapping, parameters and '
                'lambda-local assignments vanish with the call',
                'try_(f, args...) is a host callback that calls the program lambda and swallows any Exception']
